@@ -86,6 +86,8 @@ PROPS = {
             "lcm.state_space.create_filter_mask",
             "lcm.state_space.create_combination_grid",
             "lcm.state_space.create_indexers_and_segments",
+            "lcm.state_space.create_state_choice_space",
+            "lcm.input_processing.process_model.process_model",
         ],
         "families": {
             "quick": "filter mask: every skeleton with filters (retirement filter; period-dependent filter through an auxiliary function + second filter; restricted + unrestricted choices) at the first and last period; combination grid: mask ranks 1..2 (+ two masks); indexers: (restricted states, restricted choices) in {(1,1),(1,2),(2,1)}. All grid sizes and mask contents symbolic.",
@@ -96,6 +98,7 @@ PROPS = {
     },
     "C01": {
         "contracts": [
+            "lcm.solve_brute.solve",
             "C01.period-step",
             "lcm.model_functions.get_utility_and_feasibility_function",
             "lcm.discrete_problem._solve_discrete_problem_no_shocks",
@@ -107,6 +110,24 @@ PROPS = {
             "thorough": "Skel-thorough (32 skeletons incl. reversed declaration orders) at every period",
         },
         "not_decided": ["independence from JIT compilation (jax.jit is the identity in the model)", "floating-point rounding"],
+        "assumptions": COMMON_ASSUMPTIONS,
+    },
+    "C05": {
+        "contracts": [
+            "lcm.input_processing.process_model.process_model",
+            "lcm.state_space.create_state_choice_space",
+            "lcm.dispatchers.spacemap",
+            "lcm.discrete_problem._determine_dense_discrete_choice_axes",
+            "lcm.discrete_problem._solve_discrete_problem_no_shocks",
+            "C01.period-step",
+            "lcm.solve_brute.solve",
+            "lcm.state_space.create_indexers_and_segments",
+        ],
+        "families": {
+            "quick": "Skel-quick (10 skeletons incl. one reversed function order) at the first and last period; spacemap over signatures with <= 3 parameters",
+            "thorough": "Skel-thorough (reversed declaration orders of states, choices and functions) at every period",
+        },
+        "not_decided": ["model structures outside the skeleton family"],
         "assumptions": COMMON_ASSUMPTIONS,
     },
 }
